@@ -252,7 +252,7 @@ Require Import Verif.Check.C18_check Verif.Proofs.JudgeSoundC18P.
 (* ---- the executable properties of Check/C18_check.v are the property (judge soundness) ---- *)
 (* Per sink: the model's own output passes the executable property (the judge cannot raise code 2 on a case where the
    implementation agrees with the model), and ANY output the executable property accepts satisfies the property clause
-   (hreads / hread_prop / reader_prop / hconc_view / bm_prop / conv_prop / converted: Proofs/JudgeSoundC18P.v). *)
+   (hreads / hread_prop / reader_views / hconc_view / bm_prop / conv_prop / converted: Proofs/JudgeSoundC18P.v). *)
 
 (* hseq: every read of a home-chain history answers all getters from the views of ONE configuration, the most recently
    fetched one; Ready = polling; health = the history-level health (C18_snapshot_home, C18_health_exact_home) *)
@@ -265,19 +265,47 @@ Proof. exact hseq_sound. Qed.
 Print Assumptions C18_judge_hseq_sound.
 
 (* hconc: the judge's model is the constant ([], []); every view a concurrent reader saw is a view of the initial state
-   or of home_derive of ONE polled configuration, one struct copy is one snapshot, a reader never goes back *)
+   or of home_derive of ONE polled configuration, and every reader's records have a consistent reading (reader_views:
+   each read resolved to a snapshot giving the view read, the four fields of a struct copy ONE snapshot, snapshot
+   numbers never decreasing along the reader).  No side condition: two polls may give equal views. *)
 Theorem C18_judge_hconc_model_passes : forall i, hconc_ok i (@nil hitem, @nil (list (list N))) = true.
 Proof. exact hconc_model_passes. Qed.
 Print Assumptions C18_judge_hconc_model_passes.
 
 Theorem C18_judge_hconc_sound : forall i table readers,
   hconc_ok i (table, readers) = true ->
-  exists idx : list N,
-    Forall2 (fun it k => exists v, nth_error (home_init :: map (fun es => home_derive (home_convert es)) i) (N.to_nat k) = Some v /\
-                                   hconc_view i v /\ hitem_is v it) table idx /\
-    Forall (reader_prop idx) readers.
+  Forall (fun it => exists v, hconc_view i v /\ hitem_is v it) table /\
+  Forall (reader_views (hconc_cands i) hitem_matches table) readers.
 Proof. exact hconc_sound. Qed.
 Print Assumptions C18_judge_hconc_sound.
+
+(* no false alarm: records that have a consistent reading - those of a correct implementation have the true one, the
+   snapshot each read really saw - are accepted (the converse of the above; the old first-match property rejected a
+   correct struct copy when two polls gave an equal view: hconc_ok_needs_distinct_views) *)
+Theorem C18_judge_hconc_complete : forall i table readers,
+  Forall (fun it => exists v, In v (hconc_cands i) /\ hitem_matches v it = true) table ->
+  Forall (reader_views (hconc_cands i) hitem_matches table) readers ->
+  hconc_ok i (table, readers) = true.
+Proof. exact hconc_complete. Qed.
+Print Assumptions C18_judge_hconc_complete.
+
+(* the repair loses no detection: the old property implies the new one, and on inputs whose views are pairwise
+   distinct (what the harness generates) both give the same verdict *)
+Theorem C18_judge_hconc_same_on_distinct : forall i table readers,
+  distinct_viewsb (hconc_cands i) hitem_matches table = true ->
+  hconc_ok i (table, readers) = hconc_ok_before i (table, readers).
+Proof. exact hconc_same_on_distinct. Qed.
+Print Assumptions C18_judge_hconc_same_on_distinct.
+
+Theorem C18_judge_hconc_before_false_alarm :
+  hconc_ok_before [hc_es 1; hc_es 2] (hc_shared, [[[0; 1; 2; 3; 0; 1; 2; 3]]]%N) = false /\
+  hconc_ok [hc_es 1; hc_es 2] (hc_shared, [[[0; 1; 2; 3; 0; 1; 2; 3]]]%N) = true /\
+  distinct_viewsb (hconc_cands [hc_es 1; hc_es 2]) hitem_matches hc_shared = false /\
+  hconc_ok [hc_es 1; hc_es 2] (hc_shared, [[[0; 1; 2; 3; 0; 1; 4; 3]]]%N) = false /\
+  hconc_ok [hc_es 1; hc_es 2] (hc_shared, [[[0; 1; 2; 3; 0; 1; 2; 3]; [1; 1; 1; 1; 1; 1; 4; 1]]]%N) = false /\
+  hconc_ok [hc_es 1; hc_es 2] (hc_shared, [[[1; 1; 1; 1; 1; 1; 4; 1]; [0; 1; 2; 3; 0; 1; 2; 3]]]%N) = true.
+Proof. exact hconc_ok_needs_distinct_views. Qed.
+Print Assumptions C18_judge_hconc_before_false_alarm.
 
 (* rseq: the same for the RMN-home poller (C18_snapshot_rmn, C18_health_exact_rmn) *)
 Theorem C18_judge_rseq_model_passes : forall i, rseq_ok i (rseq_model i) = true.
@@ -294,12 +322,31 @@ Print Assumptions C18_judge_rconc_model_passes.
 
 Theorem C18_judge_rconc_sound : forall i table readers,
   rconc_ok i (table, readers) = true ->
-  exists idx : list N,
-    Forall2 (fun it k => exists v, nth_error (rconc_cands i) (N.to_nat k) = Some v /\ rconc_view i v /\ ritem_is v it)
-            table idx /\
-    Forall (reader_prop idx) readers.
+  Forall (fun it => exists v, rconc_view i v /\ ritem_is v it) table /\
+  Forall (reader_views (rconc_cands i) ritem_matches table) readers.
 Proof. exact rconc_sound. Qed.
 Print Assumptions C18_judge_rconc_sound.
+
+Theorem C18_judge_rconc_complete : forall i table readers,
+  Forall (fun it => exists v, In v (rconc_cands i) /\ ritem_matches v it = true) table ->
+  Forall (reader_views (rconc_cands i) ritem_matches table) readers ->
+  rconc_ok i (table, readers) = true.
+Proof. exact rconc_complete. Qed.
+Print Assumptions C18_judge_rconc_complete.
+
+Theorem C18_judge_rconc_same_on_distinct : forall i table readers,
+  distinct_viewsb (rconc_cands i) ritem_matches table = true ->
+  rconc_ok i (table, readers) = rconc_ok_before i (table, readers).
+Proof. exact rconc_same_on_distinct. Qed.
+Print Assumptions C18_judge_rconc_same_on_distinct.
+
+Theorem C18_judge_rconc_before_false_alarm :
+  rconc_ok_before rc_polls (rc_table, [[[0; 1; 2; 3; 5; 6; 7; 4]]]%N) = false /\
+  rconc_ok rc_polls (rc_table, [[[0; 1; 2; 3; 5; 6; 7; 4]]]%N) = true /\
+  distinct_viewsb (rconc_cands rc_polls) ritem_matches rc_table = false /\
+  rconc_ok rc_polls (rc_table, [[[0; 1; 2; 3; 5; 6; 2; 4]]]%N) = false.
+Proof. exact rconc_ok_needs_distinct_views. Qed.
+Print Assumptions C18_judge_rconc_before_false_alarm.
 
 (* bitmap: an accepted output code is bit j of a valid bitmap, and a refusal (>= 2) wherever C18_bitmap_refusals
    demands one (bm_prop = the clauses of C18_bitmap and C18_bitmap_refusals for an arbitrary output) *)
